@@ -297,6 +297,33 @@ def image_search(conf, NQ, a, b, c, o, cv, y):
     return False
 
 
+def scale_axis_search(conf, NQ, c, o, w, cv):
+    """failing-input search, second stage (once per run): a disagreement that is not itself a violation, e.g. a moved regime
+    switch, shows its damage further along the scale axis; scan s' = s * {1/8 .. 9.5} for the disagreeing c and the orders
+    with the longest recursions, both shapes, at a few standardised points, against the oracle"""
+    if not w > 0 or not o > 0:
+        return False
+    s0 = o / w
+    scales = sorted({min(max(s0 * f, 1e-9), 1e4) for f in (1.0, 1.5, 2.0, 3.0, 5.0, 8.0, 9.5, 1 / 1.5, 0.5, 1 / 3.0, 0.2, 0.125)})
+    for c2 in sorted({int(c), 3, 7, 9, 10}):
+        for s in scales:
+            for cv2 in (cv, not cv):
+                for t in (0.5, 0.1 - s, 0.9 + s):
+                    conf.rep.count("scale_axis_points_searched")
+                    try:
+                        d = NQ(0.0, 1.0, c2, s, cv2)
+                        with np.errstate(all="ignore"):
+                            ic, ip = float(d.cdf(t)), float(d.pdf(t))
+                    except Exception as e:  # noqa: BLE001
+                        conf.rep.violate(what="cdf/pdf raised on a valid input", error=repr(e), input=inp_of(0.0, 1.0, c2, s, cv2, t),
+                                         call="NoisyQuadraticDistribution.cdf", found_by="scale-axis search after a disagreement")
+                        return True
+                    why = "scale-axis search after a disagreement"
+                    if not conf.cdf(0.0, 1.0, c2, s, cv2, t, ic, why=why) or not conf.pdf(0.0, 1.0, c2, s, cv2, t, ip, why=why):
+                        return True
+    return False
+
+
 def run(seed, tier, replay=None):
     from opda.parametric import NoisyQuadraticDistribution as NQ
     import noisy_oracle as NO
@@ -368,11 +395,14 @@ def run(seed, tier, replay=None):
     replies = drv.run(reqs)
 
     images_left = [4]          # disagreeing instances whose location-scale images are searched
+    axis_left = [1]            # second-stage search along the scale axis, once per run
 
     def search_images(a, b, c, o, cv, y):
         if images_left[0] > 0:
             images_left[0] -= 1
-            image_search(conf, NQ, a, b, c, o, cv, y)
+            if not image_search(conf, NQ, a, b, c, o, cv, y) and axis_left[0] > 0:
+                axis_left[0] -= 1
+                scale_axis_search(conf, NQ, c, o, b - a, cv)
 
     stats = dict(cdf_cases=0, pdf_cases=0, ill_cdf=0, ill_pdf=0, tight_cdf=0, tight_pdf=0, worst_cdf_excess=0.0, worst_pdf_excess=0.0,
                  max_allowance_used_cdf=0.0)
